@@ -1,5 +1,5 @@
 (* GraphParseFacts.v — from the parser model to the graph, inside the model: for every normalised equation q that
-   satisfies Denorm.dq_ok and GNorm.neq_wf and does not use its assigned name as a function, the symbols that
+   satisfies Denorm.dq_ok and GNorm.neq_wf (no guard about the assigned name being called as a function any more: fix b45daa1), the symbols that
    parse_equation produces for the (de-normalised) statement have exactly one equation, neq_text q, and
    symbols_to_graph_M builds graph_of [q] from them — whose edges are exactly the terms of the right-hand side
    (GraphTheorems).  This is "for every symbol list from the parse model" for single statements of that form. *)
@@ -9,15 +9,13 @@ Require Import Generated PyBase PyStr Lex Symbols Merge ParseEq ParseModel Parse
 Require Import Layout Denorm DenormFacts.
 Open Scope string_scope.
 
-Definition no_function_named (y : string) (l : list ntok) : bool :=
-  forallb (fun x => match x with NFunc name => negb (String.eqb name y) | _ => true end) l.
-
-Lemma lhs_guard_terms lay y l : no_function_named y l = true -> lhs_guard y (lay_terms lay TExogenous l) = true.
+(* no term of a right-hand side is ENDOGENOUS, so lhs_guard holds of it whatever the names (until fix b45daa1 a function named
+   like the assigned variable had to be excluded here: such a statement is now a SymbolError, MergeClashFacts) *)
+Lemma lhs_guard_terms lay y l : lhs_guard y (lay_terms lay TExogenous l) = true.
 Proof.
-  unfold no_function_named, lhs_guard. induction l as [|x l IH]; [reflexivity|]. cbn [forallb]. intros H.
-  apply andb_true_iff in H as [Hx Hl]. destruct x as [name i|name|k|body|c]; cbn [lay_terms lay_term tok_term forallb ttype tname]; rewrite ?(IH Hl); try reflexivity.
-  - destruct (lstyle (lay name i)); reflexivity.
-  - rewrite Hx. reflexivity.
+  unfold lhs_guard. induction l as [|x l IH]; [reflexivity|].
+  destruct x as [name i|name|k|body|c]; cbn [lay_terms lay_term tok_term forallb ttype tname]; rewrite ?IH; try reflexivity.
+  destruct (lstyle (lay name i)); reflexivity.
 Qed.
 
 Lemma equations_of_tidy syms : (forall v, In v syms -> tidy v) ->
@@ -32,10 +30,10 @@ Qed.
 
 Theorem reparsed_equations lay y ky ws r syms :
   let q := mkNeq (NTerm y (IInt ky) :: ws) r in
-  dq_ok lay q = true -> no_function_named y r = true ->
+  dq_ok lay q = true ->
   parse_equation_M (denorm_text lay q) = POk syms -> equations_of syms = [neq_text q].
 Proof.
-  intros q Hq Hf Hp. pose proof (fixed_point_symbols lay q syms Hq Hp) as T.
+  intros q Hq Hp. pose proof (fixed_point_symbols lay q syms Hq Hp) as T.
   rewrite (normal_form_fixed_point lay q Hq) in Hp.
   destruct (equation_symbols (neq_text q) (neq_code q) (lneq_terms lay q)) as [l|] eqn:E; [|discriminate]. inversion Hp; subst l.
   assert (Hparts : lay_terms lay TEndogenous ws = [] /\ lstyle (lay y (IInt ky)) = SVar).
@@ -47,7 +45,7 @@ Proof.
   destruct Hparts as [Hws Hst].
   assert (G : lhs_guard y (lneq_terms lay q) = true).
   { unfold lneq_terms, q. cbn [nlhs nrhs lay_terms lay_term]. rewrite Hws, Hst. unfold lhs_guard. cbn [app forallb ttype tname style_type].
-    rewrite String.eqb_refl. apply (lhs_guard_terms lay y r Hf). }
+    rewrite String.eqb_refl. apply (lhs_guard_terms lay y r). }
   assert (HE : has_type TEndogenous (lneq_terms lay q) = true).
   { unfold lneq_terms, q. cbn [nlhs nrhs lay_terms lay_term]. rewrite Hst. reflexivity. }
   destruct (equation_symbols_one _ _ y _ _ G HE E) as [Hone Htidy].
@@ -63,9 +61,9 @@ Qed.
 (* the graph of the re-parsed statement is the graph of its normalised equation *)
 Theorem reparsed_graph lay y ky ws r syms :
   let q := mkNeq (NTerm y (IInt ky) :: ws) r in
-  dq_ok lay q = true -> neq_wf q = true -> no_function_named y r = true ->
+  dq_ok lay q = true -> neq_wf q = true ->
   parse_equation_M (denorm_text lay q) = POk syms -> symbols_to_graph_M syms = Ret (graph_of [q]).
 Proof.
-  intros q Hq Hw Hf Hp. apply graph_total; [apply (reparsed_equations lay y ky ws r syms Hq Hf Hp)|].
+  intros q Hq Hw Hp. apply graph_total; [apply (reparsed_equations lay y ky ws r syms Hq Hp)|].
   cbn [forallb]. rewrite Hw. reflexivity.
 Qed.
